@@ -3,7 +3,7 @@
    some map, or in the drop ledger, or was handed back to the caller - exactly once. *)
 From stdpp Require Import gmap list.
 From Coq Require Import NArith Lia.
-From G Require Import Arith Monad Types Inv Raw RawProofs Map MapProofs IterProofs CloneProofs SetProofs Ledger Conserve WorldProofs.
+From G Require Import Arith Monad Types Inv Raw RawProofs Map MapProofs IterProofs CloneProofs EntryProofs SetProofs Ledger Conserve EntryLedger WorldProofs.
 Local Open Scope N_scope.
 
 Definition held_of (M : gmap N mslot) : list N := concat (map (fun p => kidsE (m_rt (snd p))) (map_to_list M)).
@@ -95,19 +95,24 @@ Definition ledger_op (o : op) : Prop :=
   | ORetain _ _ _ | OIntoIter _ _ | ODrainFilter _ _ _ _ _ | OFromIter _ _ _ _
   | OClone _ _ | OCloneFrom _ _ | OEq _ _ | ORawGet _ _ _ | OSetAlg _ _ _ | OSetPred _ _ _ | OParIter _ _ _ _ | OSerialize _ => True
   | OParExtend _ chunks => N.of_nat (length (concat chunks)) < usize_max
+  | ODeserInPlace _ _ _ | ORawEntry _ _ _ _ => True
+  | OEntry _ _ _ ss => forallb (fun st => negb (raw_only st)) ss = true
   | ODrain _ _ forget => forget = false
   | OReserve _ n | OTryReserve _ n => n <= usize_max
   | OExtend _ _ hint => hint <= usize_max
-  | _ => False
   end.
 (* key objects the caller hands to the call / the call hands back to the caller *)
 Definition slot_kids (w : world) (s : N) : list N :=
   match w_maps w !! s with Some ms => kidsE (m_rt ms) | None => [] end.
 (* (clone and clone_from make a copy of every key object of the source: the copies enter here) *)
+Definition slot_abs (w : world) (s : N) : gmap N elem :=
+  match w_maps w !! s with Some ms => rt_abs (m_rt ms) | None => ∅ end.
 Definition k_in (w : world) (o : op) : list N :=
   match o with
+  | OEntry s k kid ss => kid :: chain_kin false (slot_abs w s) (start_ent (slot_abs w s) k (Some kid)) ss
+  | ORawEntry s _ k ss => chain_kin true (slot_abs w s) (start_ent (slot_abs w s) k None) ss
   | OInsert _ _ kid _ => [kid]
-  | OExtend _ items _ | OFromIter _ _ items _ => kids_of items
+  | OExtend _ items _ | OFromIter _ _ items _ | ODeserInPlace _ items _ => kids_of items
   | OParExtend _ chunks => kids_of (concat chunks)
   | OClone s _ | OCloneFrom _ s => slot_kids w s
   | _ => []
@@ -116,6 +121,7 @@ Definition k_out (o : op) (r : out) : list N :=
   match o, r with
   | ORemove _ true _, OutOKV (Some (kid, _)) => [kid]
   | ODrain _ _ _, OutL l | OIntoIter _ _, OutL l | ODrainFilter _ _ _ _ _, OutL l => kids3 l
+  | OEntry _ _ _ ss, OutS outs | ORawEntry _ _ _ ss, OutS outs => chain_kout ss outs
   | _, _ => []
   end.
 (* creating a map in a slot that still holds one would forget the old one: not a lawful history *)
@@ -131,7 +137,7 @@ Theorem step_conserves w t r w' :
   wdks w' ++ wheld w' ++ k_out (t_op t) r ≡ₚ k_in w (t_op t) ++ wdks w ++ wheld w.
 Proof.
   intros HW Hop Hfresh E. unfold step in E. destruct (t_op t) eqn:Eop; cbn [ledger_op] in Hop; try contradiction;
-    cbn [k_in k_out fresh_ok] in *; unfold slot_kids.
+    cbn [k_in k_out fresh_ok] in *; unfold slot_kids, slot_abs.
   - (* ONew *)
     set (w0 := W (<[s := MS rt_new hs hs]> (w_maps w)) (w_log w) (w_fuse w)) in E.
     assert (Hw0 : wheld w0 ≡ₚ wheld w).
@@ -253,6 +259,20 @@ Proof.
     injection E as <- <-. cbn [app].
     apply (lift_slot_del false w s _ _ _ u w1 [] (fun _ => []) Ew). intros ms s' Hms Em. cbn [app]. rewrite app_nil_r.
     apply (map_drop_star c _ u s' (HW s ms Hms : Inv R ES (s_rt (load w ms (t_on t, t_tomb t) (t_perm t, t_qperm t)))) Em).
+  - (* OEntry *)
+    apply rmap_ok in E as (a & Ea & ->).
+    assert (Hall : Forall (st_wf false) steps).
+    { apply Forall_forall. intros st Hin Hr. rewrite forallb_forall in Hop. specialize (Hop st (proj1 (elem_of_list_In _ _) Hin)). rewrite Hr in Hop. discriminate. }
+    destruct (w_maps w !! s) as [ms0|] eqn:Es; [|unfold with_slot_h, with_slot_gen in Ea; rewrite Es in Ea; discriminate].
+    apply (lift_slot true w s _ _ _ a w' (kid :: chain_kin false (rt_abs (m_rt ms0)) (start_ent (rt_abs (m_rt ms0)) k (Some kid)) steps) (chain_kout steps) Ea).
+    intros ms s' Hms Em. rewrite Es in Hms. injection Hms as <-.
+    exact (map_entry_conserves c k kid steps _ a s' (HW s ms0 Es : Inv R ES (s_rt (load w ms0 (t_on t, t_tomb t) (t_perm t, t_qperm t)))) Hall Em).
+  - (* ORawEntry *)
+    apply rmap_ok in E as (a & Ea & ->).
+    destruct (w_maps w !! s) as [ms0|] eqn:Es; [|unfold with_slot_h, with_slot_gen in Ea; rewrite Es in Ea; discriminate].
+    apply (lift_slot true w s _ _ _ a w' (chain_kin true (rt_abs (m_rt ms0)) (start_ent (rt_abs (m_rt ms0)) k None) steps) (chain_kout steps) Ea).
+    intros ms s' Hms Em. rewrite Es in Hms. injection Hms as <-.
+    exact (map_raw_entry_conserves c variant k steps _ a s' (HW s ms0 Es : Inv R ES (s_rt (load w ms0 (t_on t, t_tomb t) (t_perm t, t_qperm t)))) Em).
   - (* ORawGet *)
     rewrite app_nil_r. cbn [app]. apply (lift_slot0 true w s _ _ _ r w' E). intros ms s' _ Em.
     exact (rp_star _ _ _ r s' (rp_map_raw_get variant k) Em).
@@ -272,6 +292,10 @@ Proof.
   - (* OSerialize *)
     apply rmap_ok in E as (a & Ea & ->). rewrite app_nil_r. cbn [app]. apply (lift_slot0 false w s _ _ _ a w' Ea).
     intros ms s' _ Em. exact (rp_star _ _ _ a s' rp_map_serialize Em).
+  - (* ODeserInPlace *)
+    apply rmap_ok in E as (a & Ea & ->).
+    apply (lift_slot true w s _ _ _ a w' (kids_of items) (fun _ => []) Ea). intros ms s' Hms Em. rewrite app_nil_r.
+    exact (map_deser_in_place_star c items hint _ a s' (HW s ms Hms : Inv R ES (s_rt (load w ms (t_on t, t_tomb t) (t_perm t, t_qperm t)))) Em).
 Qed.
 
 
@@ -326,7 +350,7 @@ Proof.
 Qed.
 
 (* in a history without clone/clone_from, what goes in can be read off the operations alone *)
-Definition static_in (o : op) : bool := match o with OClone _ _ | OCloneFrom _ _ => false | _ => true end.
+Definition static_in (o : op) : bool := match o with OClone _ _ | OCloneFrom _ _ | OEntry _ _ _ _ | ORawEntry _ _ _ _ => false | _ => true end.
 Lemma keys_in_static w ts rs w' :
   ok_run w ts rs w' -> forallb (fun t => static_in (t_op t)) ts = true ->
   keys_in w ts = concat (map (fun t => k_in world0 (t_op t)) ts).
@@ -343,10 +367,11 @@ Definition ledger_opb (o : op) : bool :=
   | ORetain _ _ _ | OIntoIter _ _ | ODrainFilter _ _ _ _ _ | OFromIter _ _ _ _
   | OClone _ _ | OCloneFrom _ _ | OEq _ _ | ORawGet _ _ _ | OSetAlg _ _ _ | OSetPred _ _ _ | OParIter _ _ _ _ | OSerialize _ => true
   | OParExtend _ chunks => N.of_nat (length (concat chunks)) <? usize_max
+  | ODeserInPlace _ _ _ | ORawEntry _ _ _ _ => true
+  | OEntry _ _ _ ss => forallb (fun st => negb (raw_only st)) ss
   | ODrain _ _ forget => negb forget
   | OReserve _ n | OTryReserve _ n => n <=? usize_max
   | OExtend _ _ hint => hint <=? usize_max
-  | _ => false
   end.
 Definition fresh_okb (w : world) (o : op) : bool :=
   match o with ONew s _ _ | OFromIter s _ _ _ | OClone _ s => match w_maps w !! s with None => true | Some _ => false end | _ => true end.
